@@ -12,6 +12,9 @@
 #include <mutex>
 #include <stdexcept>
 #include <thread>
+#include <pthread.h>
+#include <sys/syscall.h>
+#include <unistd.h>
 
 #ifndef NANO_VERIF
 #error "this harness needs the NANO_VERIF hooks"
@@ -27,6 +30,8 @@ struct event_t
     int      kind;
     int      actor; // submitter id for submitter events, tnum for worker events
     uint64_t a;
+    int64_t  qsize; // lock-protected events: m_tasks.size() read under the (verified) lock, else -1
+    int      stop;  // lock-protected events: m_stop read under the lock, else -1
 };
 
 constexpr size_t          max_events = 1U << 20;
@@ -40,29 +45,97 @@ thread_local bool         tl_init = false;
 
 std::atomic<int> g_unlocked_events{0};
 std::atomic<int> g_unlocked_kind{0};
+std::atomic<long> g_locked_verified[16];   // per event kind: emitted with the queue mutex held by the emitting thread
+std::atomic<long> g_lockfree_inside{0};    // lock-free events that were emitted while the emitting thread held the mutex
+bool              g_owner_probe = false;   // the glibc owner field is usable (self-test at start-up)
+thread_local long tl_tid = 0;
+
+long my_tid()
+{
+    if (tl_tid == 0) tl_tid = static_cast<long>(::syscall(SYS_gettid));
+    return tl_tid;
+}
+
+// who holds the mutex: glibc records the kernel thread id of the owner in the pthread mutex
+bool held_by_me(std::mutex& m)
+{
+    return static_cast<long>(m.native_handle()->__data.__owner) == my_tid();
+}
+
+// the events of the model that happen inside a block holding the queue mutex (every access to m_tasks / m_stop)
+bool lock_protected(int kind)
+{
+    return kind == verif::ev_push_one || kind == verif::ev_push_all || kind == verif::ev_worker_pop ||
+           kind == verif::ev_worker_exit || kind == verif::ev_stop;
+}
+
+// self-test of the two probes (positive and negative control); returns false if a probe cannot be trusted here
+bool probe_selftest()
+{
+    std::mutex m;
+    bool       ok = true;
+    if (!m.try_lock()) ok = false; // free mutex: try_lock must succeed
+    else
+    {
+        if (m.try_lock()) { ok = false; m.unlock(); } // owned by the caller: must fail (normal pthread mutex)
+        g_owner_probe = held_by_me(m);
+        bool other_sees_owner = true;
+        std::thread([&] { other_sees_owner = held_by_me(m); }).join();
+        if (other_sees_owner) g_owner_probe = false; // another thread must not be reported as the owner
+        m.unlock();
+        if (g_owner_probe && held_by_me(m)) g_owner_probe = false; // released: nobody owns it
+    }
+    return ok;
+}
 
 void on_event(int kind, const void* object, uint64_t a, uint64_t)
 {
     // the model's atomicity reduction: these events are emitted inside a block that holds the queue mutex.
-    // try_lock on a mutex owned by the calling thread reports failure with the pthread mutex used here; if it
-    // succeeds the mutex was NOT held: the shared state is touched outside the lock the proof relies on.
-    if (kind == verif::ev_push_one || kind == verif::ev_push_all || kind == verif::ev_worker_pop ||
-        kind == verif::ev_worker_exit || kind == verif::ev_stop)
+    // (1) owner probe: the mutex must be held BY THE EMITTING THREAD (glibc owner field, validated by the self-test);
+    // (2) try_lock probe (fallback, and kept as an independent second opinion): try_lock on a mutex owned by the
+    //     calling thread reports failure with the pthread mutex used here; if it succeeds the mutex was NOT held:
+    //     the shared state is touched outside the lock the proof relies on.
+    int64_t qsize = -1;
+    int     stop  = -1;
+    if (lock_protected(kind))
     {
         const auto* queue = static_cast<const nano::parallel::queue_t*>(object);
-        if (queue != nullptr && queue->m_mutex.try_lock())
+        if (queue != nullptr)
         {
-            queue->m_mutex.unlock();
-            g_unlocked_events.fetch_add(1);
-            g_unlocked_kind.store(kind);
+            bool held = true;
+            if (g_owner_probe && !held_by_me(queue->m_mutex)) held = false;
+            if (held && queue->m_mutex.try_lock())
+            {
+                queue->m_mutex.unlock();
+                held = false;
+            }
+            if (!held)
+            {
+                g_unlocked_events.fetch_add(1);
+                g_unlocked_kind.store(kind);
+            }
+            else
+            {
+                // the lock is held by this thread: the protected state can be read and is compared with the model's
+                qsize = static_cast<int64_t>(queue->m_tasks.size());
+                stop  = queue->m_stop ? 1 : 0;
+                g_locked_verified[kind & 15].fetch_add(1, std::memory_order_relaxed);
+            }
         }
+    }
+    else if (g_owner_probe && (kind == verif::ev_notify_one || kind == verif::ev_notify_all || kind == verif::ev_notify_stop ||
+                               kind == verif::ev_worker_done || kind == verif::ev_joined || kind == verif::ev_map_inline))
+    {
+        // events the model treats as lock-free (object = the queue): legal inside the lock too, only counted
+        const auto* queue = static_cast<const nano::parallel::queue_t*>(object);
+        if (queue != nullptr && held_by_me(queue->m_mutex)) g_lockfree_inside.fetch_add(1, std::memory_order_relaxed);
     }
     const auto i = g_nevents.fetch_add(1, std::memory_order_acq_rel);
     if (i >= max_events) return;
     int actor = tl_sid;
     if (kind == verif::ev_worker_pop || kind == verif::ev_worker_done || kind == verif::ev_worker_exit)
         actor = static_cast<int>(a);
-    g_events[i] = event_t{kind, actor, a};
+    g_events[i] = event_t{kind, actor, a, qsize, stop};
 }
 
 void on_sched(int point)
@@ -261,7 +334,14 @@ void print_scenario(int k, scenario_t& sc, bool hang)
     std::printf("\n");
     const auto n = std::min(g_nevents.load(), max_events);
     std::printf("EVENTS");
-    for (size_t i = 0; i < n; ++i) std::printf(" %s:%d:%" PRIu64, kind_name(g_events[i].kind), g_events[i].actor, g_events[i].a);
+    for (size_t i = 0; i < n; ++i)
+    {
+        // lock-protected events carry what was read under the lock: KIND:actor:a:queue-size:stop
+        if (g_events[i].qsize >= 0)
+            std::printf(" %s:%d:%" PRIu64 ":%" PRId64 ":%d", kind_name(g_events[i].kind), g_events[i].actor, g_events[i].a,
+                        g_events[i].qsize, g_events[i].stop);
+        else std::printf(" %s:%d:%" PRIu64, kind_name(g_events[i].kind), g_events[i].actor, g_events[i].a);
+    }
     std::printf("\n");
     std::printf("EXEC");
     for (size_t i = 0; i < sc.recs.size(); ++i) std::printf(" %zu:%d:%d", i, sc.recs[i].count.load(), sc.recs[i].tnum.load());
@@ -291,6 +371,10 @@ int main(int argc, char** argv)
     int               count = argc > 2 ? std::atoi(argv[2]) : (mode == "quick" ? 300 : 6000);
     std::setvbuf(stdout, nullptr, _IOLBF, 0);
     vh::rng_t rng(vh::env_seed());
+    for (auto& c : g_locked_verified) c.store(0);
+    const bool probes_ok = probe_selftest();
+    std::printf("PROBE try_lock=%s owner=%s\n", probes_ok ? "ok" : "UNUSABLE", g_owner_probe ? "ok" : "unavailable");
+    if (!probes_ok) std::printf("FAIL scenario -1: the try_lock probe of the atomicity check does not behave as assumed on this platform\n");
     verif::g_event_hook.store(&on_event);
     verif::g_sched_hook.store(&on_sched);
     const auto maxw = pool_t::max_size();
@@ -339,6 +423,27 @@ int main(int argc, char** argv)
                 sc->progs[s].push_back(c);
             }
         }
+        // destruction with queued / running tasks: in a third of the scenarios the last thread ends with a burst of slow
+        // fire-and-forget tasks, so that ~pool_t() finds the queue populated and workers busy (the property's
+        // "idle, busy or has queued tasks"; without it the pool is practically always idle when it is destroyed)
+        int burst_from = -1;
+        if (rng.range(0, 2) == 0)
+        {
+            // every thread gets its burst: the one that happens to finish last leaves the queue populated
+            burst_from = next_id;
+            for (size_t s = 0; s < nsub; ++s)
+            {
+                const auto nb = rng.range(static_cast<int64_t>(want), 6 * static_cast<int64_t>(want));
+                for (int64_t b = 0; b < nb; ++b)
+                {
+                    call_t c{};
+                    c.kind  = ckind::enqueue;
+                    c.count = 1;
+                    c.id0   = next_id++;
+                    sc->progs[s].push_back(c);
+                }
+            }
+        }
         sc->throws.assign(static_cast<size_t>(next_id), 0);
         sc->delay.assign(static_cast<size_t>(next_id), 0);
         sc->recs = std::vector<task_rec_t>(static_cast<size_t>(next_id));
@@ -347,6 +452,7 @@ int main(int argc, char** argv)
         {
             sc->throws[static_cast<size_t>(i)] = rng.range(0, 99) < throw_rate;
             sc->delay[static_cast<size_t>(i)]  = rng.range(0, 9) == 0 ? static_cast<int>(rng.range(1, shape == 9 ? 20 : 300)) : 0;
+            if (burst_from >= 0 && i >= burst_from) sc->delay[static_cast<size_t>(i)] = static_cast<int>(rng.range(300, 2000));
         }
         g_nevents.store(0);
         g_sched_seed.store(rng.next());
@@ -420,6 +526,10 @@ int main(int argc, char** argv)
         total_fail += sc->fails.load();
         total_events += static_cast<long>(g_nevents.load());
     }
-    std::printf("DONE scenarios=%d fails=%ld events=%ld\n", count, total_fail, total_events);
+    std::printf("LOCKED push1=%ld pushn=%ld pop=%ld exit=%ld stop=%ld lockfree_inside_lock=%ld owner_probe=%d\n",
+                g_locked_verified[verif::ev_push_one].load(), g_locked_verified[verif::ev_push_all].load(),
+                g_locked_verified[verif::ev_worker_pop].load(), g_locked_verified[verif::ev_worker_exit].load(),
+                g_locked_verified[verif::ev_stop].load(), g_lockfree_inside.load(), g_owner_probe ? 1 : 0);
+    std::printf("DONE scenarios=%d fails=%ld events=%ld\n", count, total_fail + (probes_ok ? 0 : 1), total_events);
     return 0;
 }
